@@ -475,6 +475,28 @@ MUTANTS = {
               "      auto_po2_quantizer_with_frozen_scale = (\n"
               "          _create_quantized_bits_with_post_training_scale(\n"
               "              auto_po2_quantizer))\n")]),
+    "m92_removed_node_keeps_incoming_edge_attributes": dict(
+        expect=["C18"], edits=[E(
+            "qkeras/qtools/qgraph.py",
+            "      graph.add_edges_from([(u, w, out_attr)])\n",
+            "      graph.add_edges_from([(u, w, in_attr)])\n")]),
+    "m93_input_quantizers_keyed_by_layer_order": dict(expect=["C18"], edits=[E(
+        "qkeras/qtools/qgraph.py",
+        "  for (idx, tensor) in enumerate(model.inputs):\n"
+        "    input_quantizer_map[tensor.ref()] = input_quantizer_list[idx]\n",
+        "  input_layers = [l for l in model.layers\n"
+        "                  if l.__class__.__name__ == \"InputLayer\"]\n"
+        "  for (idx, layer) in enumerate(input_layers):\n"
+        "    input_quantizer_map[layer.output.ref()] = "
+        "input_quantizer_list[idx]\n")]),
+    "m94_po2_type_loses_cap_on_the_way_back": dict(expect=["C16"], edits=[E(
+        QO + "quantizer_impl.py",
+        "      return quantizers.quantized_po2(\n          bits=self.bits,\n"
+        "          max_value=self.max_val_po2 if self.max_val_po2 >= 0 else "
+        "None,\n",
+        "      return quantizers.quantized_po2(\n          bits=self.bits,\n"
+        "          max_value=self.max_val_po2 if self.max_val_po2 > 2 else "
+        "None,\n")]),
 }
 
 BENIGN = {
@@ -770,4 +792,10 @@ BENIGN = {
     "b40_count_from_hyperparameters": dict(props=["C19"], edits=os.path.join(
         os.path.dirname(os.path.abspath(__file__)), "benign_patches",
         "b40_count_from_hyperparameters.diff")),
+    "b41_node_dict_with_setdefault": dict(props=["C18", "C14", "C15"],
+                                         edits=[E(
+        "qkeras/qtools/qgraph.py",
+        "    if i not in nodes_dict.keys():\n      nodes_dict[i] = [layer]\n"
+        "    else:\n      nodes_dict[i].append(layer)\n",
+        "    nodes_dict.setdefault(i, []).append(layer)\n")]),
 }
